@@ -93,6 +93,31 @@ def is_panic_check(c):
 
 
 def playback(crate, harness, prefix='', timeout=900, want=None, extra=None):
+    """Counterexample of one failing harness as concrete values.  First in WITNESS MODE (a copy of the crate
+    with `WITNESS_MODE = true`: the harness additionally assumes a small, re-basable world), then - if the
+    failure does not exist there - unconstrained.  Returns (values, raw text)."""
+    import shutil
+    lib = os.path.join(crate, 'src', 'lib.rs')
+    try:
+        with open(lib) as f:
+            txt = f.read()
+    except OSError:
+        txt = ''
+    if 'pub const WITNESS_MODE: bool = false;' in txt:
+        wit = crate.rstrip('/') + '_wit_%d' % os.getpid()
+        try:
+            shutil.copytree(crate, wit, ignore=shutil.ignore_patterns('target*', '*.log', '*.json', '.lock'))
+            with open(os.path.join(wit, 'src', 'lib.rs'), 'w') as f:
+                f.write(txt.replace('pub const WITNESS_MODE: bool = false;', 'pub const WITNESS_MODE: bool = true;'))
+            vals, raw = _playback(wit, harness, prefix, timeout, want, extra)
+            if vals:
+                return vals, '[witness mode: small-world assumption]\n' + (raw or '')
+        finally:
+            shutil.rmtree(wit, ignore_errors=True)
+    return _playback(crate, harness, prefix, timeout, want, extra)
+
+
+def _playback(crate, harness, prefix='', timeout=900, want=None, extra=None):
     """Re-run one failing harness with concrete playback; return (values, raw text).
     values = list of byte lists in kani::any() order, taken from the test Kani prints for the
     failing check whose description contains `want` (else the first failing assertion)."""
